@@ -9,8 +9,14 @@ here="$(cd "$(dirname "$0")/.." && pwd)"
 d="$(mktemp -d /tmp/ngsv-seed-XXXXXX)"
 trap 'rm -rf "$d"' EXIT
 mkdir -p "$d/clean" "$d/mut" "$d/out"
-git -C /repo archive "${SEED_BASE:-HEAD}" | tar -x -C "$d/clean"
-git -C /repo archive "${SEED_BASE:-HEAD}" | tar -x -C "$d/mut"
+base="${SEED_BASE:-HEAD}"
+# a seed written before fix c2c0405 whose patch edits the very lines the fix rewrote is
+# validated against the tree it was written for
+if [ "$base" = HEAD ] && ! git -C /repo apply --check "$seed/patch.diff" 2>/dev/null; then
+  base=577b66d; echo "base: $base (the patch predates a later fix: commit and does not apply to HEAD)"
+fi
+git -C /repo archive "$base" | tar -x -C "$d/clean"
+git -C /repo archive "$base" | tar -x -C "$d/mut"
 (cd "$d/mut" && git init -q . >/dev/null 2>&1; git apply "$seed/patch.diff") || { echo "SEED patch does not apply"; exit 3; }
 echo "files: $(grep '^+++ ' "$seed/patch.diff" | tr '\n' ' ')"
 t=$(cd "$d/mut" && PYTHONPATH="$d/mut/src" PYTHONDONTWRITEBYTECODE=1 /venv/bin/python -m pytest -q -p no:cacheprovider --timeout=900 unit_tests script_tests 2>&1 | tail -1)
